@@ -1,6 +1,7 @@
 package main
 
 import (
+	"golang.org/x/tools/go/types/typeutil"
 	"os"
 	"regexp"
 	"fmt"
@@ -103,7 +104,7 @@ func checkClause(prog *Program, fi *FuncInfo, cl *Clause, pos token.Pos, ghostTy
 			if m == nil {
 				break
 			}
-			to, ok := renameFor(prog, fi, m[1])
+			to, ok := renameFor(prog, fi, m[1], pos)
 			if !ok {
 				break
 			}
@@ -219,13 +220,24 @@ func localsOf(fi *FuncInfo) []localInfo {
 var renameCache = map[string]map[string]string{}
 
 // renameFor: what the variable `old` of the delivered tree is called in the current function, if that can be told.
-func renameFor(prog *Program, fi *FuncInfo, old string) (string, bool) {
-	m, ok := renameCache[fi.Key]
+func renameFor(prog *Program, fi *FuncInfo, old string, pos token.Pos) (string, bool) {
+	// the clause may be evaluated inside a helper the function calls (a loop that was moved into an extracted helper):
+	// then the candidates are the helper's variables
+	scopeFn := fi
+	if fi.Decl != nil && (pos < fi.Decl.Pos() || pos >= fi.Decl.End()) {
+		for _, h := range prog.Funcs {
+			if h.Pkg == fi.Pkg && h.Decl != nil && h.Decl.Body != nil && !h.VarInit && pos >= h.Decl.Pos() && pos < h.Decl.End() {
+				scopeFn = h
+			}
+		}
+	}
+	ckey := fi.Key + "@" + scopeFn.Key
+	m, ok := renameCache[ckey]
 	if !ok {
 		m = map[string]string{}
-		renameCache[fi.Key] = m
+		renameCache[ckey] = m
 		was := baselineLocals[fi.Key]
-		now := localsOf(fi)
+		now := localsOf(scopeFn)
 		nowNames := map[string]bool{}
 		for _, l := range now {
 			nowNames[l.Name] = true
@@ -784,12 +796,70 @@ func numberLoopsAndLits(fd *ast.FuncDecl) (map[ast.Stmt]int, map[*ast.FuncLit]in
 	return loops, lits
 }
 
+// renumberThroughHelpers: loop ordinals follow the order in which loops are ENCOUNTERED when the function is read in
+// source order descending into the small uncontracted same-package helpers it calls (the ones executed inline). A loop
+// that was moved into an extracted helper keeps the ordinal - and with it the invariants - it had while it was
+// written in place. Without such helpers this is exactly the source-order numbering.
+func (fv *FuncVerifier) renumberThroughHelpers() {
+	fi := fv.fn
+	if fi == nil || fi.Decl == nil || fi.Decl.Body == nil || fi.Pkg == nil {
+		return
+	}
+	loops := map[ast.Stmt]int{}
+	n := 0
+	visiting := map[*FuncInfo]bool{fi: true}
+	var walk func(body *ast.BlockStmt, info *types.Info, depth int)
+	walk = func(body *ast.BlockStmt, info *types.Info, depth int) {
+		ast.Inspect(body, func(x ast.Node) bool {
+			switch y := x.(type) {
+			case *ast.ForStmt:
+				if _, done := loops[y]; !done {
+					n++
+					loops[y] = n
+				}
+			case *ast.RangeStmt:
+				if _, done := loops[y]; !done {
+					n++
+					loops[y] = n
+				}
+			case *ast.CallExpr:
+				if depth >= 3 {
+					return true
+				}
+				if fn, ok := typeutil.Callee(info, y).(*types.Func); ok {
+					if h, ok := fv.prog.ByObj[fn.Origin()]; ok && h.Contr == nil && h.Pkg == fi.Pkg && !visiting[h] && fv.inlinable(h) {
+						// arguments first (source order), then the helper's body
+						for _, a := range y.Args {
+							ast.Inspect(a, func(ast.Node) bool { return true })
+						}
+						visiting[h] = true
+						walk(h.Decl.Body, h.Pkg.TypesInfo, depth+1)
+						delete(visiting, h)
+					}
+				}
+			}
+			return true
+		})
+	}
+	walk(fi.Decl.Body, fi.Pkg.TypesInfo, 0)
+	same := len(loops) == len(fv.loops)
+	for k, v := range fv.loops {
+		if loops[k] != v {
+			same = false
+		}
+	}
+	if !same {
+		fv.loops = loops
+	}
+}
+
 // VerifyFunc generates all obligations of fi (the function itself and every contracted literal inside it).
 func VerifyFunc(w *World, prog *Program, fi *FuncInfo) *FuncResult {
 	fv := &FuncVerifier{w: w, prog: prog, fn: fi, info: fi.Pkg.TypesInfo, consts: map[string]Sort{},
 		dropped: map[string]bool{}, externUsed: map[string]bool{}, calleesUsed: map[string]bool{}, closureLits: map[*types.Var]*ast.FuncLit{},
 		loopGhostTypes: map[string]types.Type{}}
 	fv.loops, fv.lits = numberLoopsAndLits(fi.Decl)
+	fv.renumberThroughHelpers()
 	fv.prepareLoopGhostTypes()
 	// local variables bound to function literals (x := func..., var x func...; x = func...)
 	ast.Inspect(fi.Decl.Body, func(n ast.Node) bool {
